@@ -239,7 +239,8 @@ def run(R):
     # temporary rules are made unreferable: every rule whose identifier starts with `#_` is renamed with a unique suffix
     ren = [n for n in sr.cfg.nodes if n.kind == 'stmt' and isinstance(n.ast, ast.AugAssign) and ast.unparse(n.ast.target) == 'rule.id.id']
     inst = sr.qual + ' :: temporary rules are renamed (cannot be referred to as signers)'
-    rt = [t for t in sr.cfg.nodes if t.kind == 'test' and 'rule.id.id' in ast.unparse(t.ast)]
+    rt = [t for t in sr.cfg.nodes if t.kind == 'test' and 'rule.id.id' in ast.unparse(t.ast)
+          and not (isinstance(t.ast, ast.Compare) and isinstance(t.ast.ops[0], (ast.In, ast.NotIn)))]       # tests on the identifier itself, not membership tests
     okr = len(ren) == 1 and len(rt) == 1 and ast.unparse(rt[0].ast) in ("rule.id.id[1] == '_'", "rule.id.id.startswith('#_')", "rule.id.id[:2] == '#_'") \
         and ren[0].id not in sr.cfg.reachable(removed_edges={(rt[0].id, True)})
     if okr:
@@ -308,6 +309,53 @@ def run(R):
         R.ok('C13.GRD.3', inst, site(sr, tc[0]))
     else:
         R.fail('C13.GRD.3', inst, sr.qual, 'def _sort_rule_references', 'rule reference cycles are not checked', site(sr, sr.f.node))
+    # ... over a graph that holds every reference of every definition of a rule (a rule may be defined several times: alternatives)
+    inst = sr.qual + ' :: the reference graph accumulates the references of every definition of a rule'
+    if len(tc) == 1 and len(tc[0].args) == 2 and isinstance(tc[0].args[1], ast.Name):
+        G = tc[0].args[1].id
+        probs = []
+        rule_loops = [n for n in sr.cfg.nodes if n.kind == 'for' and ast.unparse(n.ast.iter) == 'self.lvs.rules']
+        in_rule_loop = lambda node_ast: any(any(x is node_ast for x in ast.walk(l.ast)) for l in rule_loops)
+        for n in sr.cfg.nodes:
+            if n.kind == 'stmt' and isinstance(n.ast, ast.Assign) and in_rule_loop(n.ast):
+                for t in n.ast.targets:
+                    whole = isinstance(t, ast.Name) and t.id == G
+                    entry = isinstance(t, ast.Subscript) and isinstance(t.value, ast.Name) and t.value.id == G
+                    if not (whole or entry):
+                        continue
+                    guarded = False
+                    if entry:
+                        k = ast.unparse(t.slice)
+                        for g_ in sr.cfg.nodes:
+                            if g_.kind == 'test' and isinstance(g_.ast, ast.Compare) and len(g_.ast.ops) == 1 and isinstance(g_.ast.ops[0], (ast.In, ast.NotIn)) \
+                                    and ast.unparse(g_.ast.left) == k and ast.unparse(g_.ast.comparators[0]) == G:
+                                absent = isinstance(g_.ast.ops[0], ast.NotIn)
+                                if n.id not in sr.cfg.reachable(removed_edges={(g_.id, absent)}):
+                                    guarded = True
+                    if not guarded:
+                        probs.append((n.ast, f'`{norm(n.ast)}` inside the loop over the rule definitions starts the entry afresh for every definition: the '
+                                             'references of an earlier definition of the same rule are lost, a cycle through them is not reported'))
+        adds_g = [(n, c) for (n, c) in calls_in_ctx(sr, attr='append') if isinstance(c.func.value, ast.Subscript) and isinstance(c.func.value.value, ast.Name)
+                  and c.func.value.value.id == G]
+        isr = [t for t in sr.cfg.nodes if t.kind == 'test' and isinstance(t.ast, ast.Call) and ast.unparse(t.ast.func) == 'isinstance' and len(t.ast.args) == 2
+               and ast.unparse(t.ast.args[1]).endswith('RuleId')]
+        if len(adds_g) != 1 or len(isr) != 1:
+            probs.append((sr.f.node, f'{len(adds_g)} statements add a reference to the graph, {len(isr)} tests for a rule reference: expected one of each'))
+        else:
+            (an, ac) = adds_g[0]
+            cvar = ast.unparse(isr[0].ast.args[0])
+            if ast.unparse(ac.func.value.slice) != 'rule.id.id' or ast.unparse(ac.args[0]) != f'{cvar}.id':
+                probs.append((ac, f'the edge added is {ast.unparse(ac.func.value.slice)} -> {ast.unparse(ac.args[0])}, expected rule.id.id -> {cvar}.id'))
+            # from "this component is a rule reference" every way on that does not raise passes the append
+            inner = [n for n in sr.cfg.nodes if n.kind == 'for' and any(x is isr[0].ast for x in ast.walk(n.ast)) and ast.unparse(n.ast.target) == cvar]
+            r_ = reach_from_succ(sr.cfg, isr[0], True, removed_nodes={an.id}, follow_exc=False)
+            if inner and (inner[0].id in r_ or sr.cfg.exit.id in r_):
+                probs.append((isr[0].ast, 'a rule reference can be passed over without being entered into the graph (cycles through it are not reported)'))
+        if probs:
+            for (construct, what) in probs:
+                R.fail('C13.GRD.3', inst, sr.qual, construct if not isinstance(construct, (ast.FunctionDef, ast.AsyncFunctionDef)) else 'def _sort_rule_references', what, site(sr, construct))
+        else:
+            R.ok('C13.GRD.3', inst, site(sr, adds_g[0][1]))
     inst = sc.qual + ' :: signing relation checked for cycles by top_order'
     tc = [c for (n, c) in calls_in_ctx(sc) if isinstance(c.func, ast.Name) and c.func.id == 'top_order']
     adds = [c for (n, c) in calls_in_ctx(df, attr='append') if ast.unparse(c.func.value) == f'adj_lst[{cur}]' and ast.unparse(c.args[0]) == 'key_node_id']
